@@ -14,7 +14,7 @@ RULE = ('Generated conformant documents of every selectable map (1-2 sets, 1-2 g
         'order; seg_count equals the recounted position in the set and cur_line_number the ordinal in the file. non-trivial = distinct (map, L) pairs that yielded >=1 tree.')
 ASSUMPTIONS = ['the intended map path and loop instance of each segment are the generator\'s ground truth',
                'position in the set is not asserted for ISA/GS/GE/IEA (they are outside any set)']
-REQUIRED_COUNTERS = ['docs:interchanges-of-different-versions', 'docs:sibling-loops-interleaved', 'runs', 'runs:None', 'runs:absent-loop', 'trees', 'segments-compared', 'tree-segments-compared', 'runs:ISA_LOOP', 'runs:ST_LOOP']
+REQUIRED_COUNTERS = ['docs:with-TA1:after-isa', 'docs:with-TA1:before-iea', 'docs:interchanges-of-different-versions', 'docs:sibling-loops-interleaved', 'runs', 'runs:None', 'runs:absent-loop', 'trees', 'segments-compared', 'tree-segments-compared', 'runs:ISA_LOOP', 'runs:ST_LOOP']
 MIN_CASES = {'quick': 800, 'thorough': 20000}
 WATCHDOG_S = {'quick': 1200, 'thorough': 7200}
 
@@ -132,7 +132,7 @@ def judge(ctx, doc, text, L, case, sigs):
         if cl != i + 1:
             ctx.viol('context:cur-line-number', 'cur_line_number is not the ordinal of the segment in the file', c2, {'got': cl, 'expected': i + 1})
             return
-        if r.node.id not in ('ISA', 'GS', 'GE', 'IEA') and set_start is not None:
+        if r.node.id not in ('ISA', 'GS', 'GE', 'IEA', 'TA1') and set_start is not None:
             pos = i - set_start + 1
             if sc != pos:
                 ctx.viol('context:seg-count:%s' % ('SE' if r.node.id == 'SE' else 'body'), 'seg_count is not the position of the segment in its set', c2, {'got': sc, 'expected': pos})
@@ -184,6 +184,12 @@ def run(ctx):
             if len(doc.recs) > 700:
                 ctx.count('skipped-large')
                 continue
+            if k % 3 == 0 or k % 4 == 3:
+                # an interchange acknowledgement segment in every interchange, after the ISA or after the last group: a segment of ISA_LOOP
+                # that belongs to no group
+                where = 'before-iea' if k % 6 == 0 else 'after-isa'
+                doc = gen_doc.add_ta1(doc, where)
+                ctx.count('docs:with-TA1:' + where)
             text = doc.text()
             if doc.meta.get('interleaved_groups'):
                 ctx.count('docs:sibling-loops-interleaved')
@@ -195,7 +201,7 @@ def run(ctx):
                 if L == '<absent>':
                     L = absent_loop(doc)
                     ctx.count('runs:absent-loop')
-                case = {'map': e['file'], 'entry': e, 'gen_seed': seed, 'params': kw, 'loop_id': L}
+                case = {'map': e['file'], 'entry': e, 'gen_seed': seed, 'params': kw, 'loop_id': L, 'ta1': doc.meta.get('ta1')}
                 judge(ctx, doc, text, L, case, sigs)
                 n += 1
             ctx.sample({'map': label, 'loop_ids': ids, 'segments': len(doc.recs), 'text_head': text[:300]})
@@ -227,4 +233,6 @@ def replay(ctx, case):
     if case.get('mixed'):
         raise RuntimeError('mixed-version cases are regenerated from VERIF_SEED (re-run the check with the seed of the replay file); the stored text shows the input')
     doc = gen_doc.gen_document(case['entry'], case['gen_seed'], **case['params'])
+    if case.get('ta1'):
+        doc = gen_doc.add_ta1(doc, case['ta1'])
     judge(ctx, doc, doc.text(), case['loop_id'], case, set())
